@@ -537,10 +537,22 @@ Proof.
   destruct (k + 2 * n <? 2 * n) eqn:E0; [apply N.ltb_lt in E0; lia|]. f_equal. lia.
 Qed.
 
+Definition oexpr_sl2 (o : oexpr) : Prop :=
+  forall st st', compile_oexpr true o st = COk st' ->
+    csym st' = csym st /\
+    exists ops newc,
+      ccode st' = ccode st ++ encode ops /\ cconsts st' = cconsts st ++ newc /\
+      (forall nc gc k,
+        N.of_nat (List.length (cconsts st')) <= nc ->
+        gbw (csym st) gc ->
+        runs nc gc ops k = Some (k + 1)) /\
+      (forall lc, lbw (csym st) lc -> Forall (lopk lc) ops).
+
 Theorem efrag_sl2_all :
   (forall e, efrag e = true -> expr_sl2 e) /\
   (forall l, efrag_list l = true -> elist_sl2 l) /\
-  (forall l, efrag_pairs l = true -> pairs_sl2 l) /\ (forall o : oexpr, True).
+  (forall l, efrag_pairs l = true -> pairs_sl2 l) /\
+  (forall o, efrag_o o = true -> oexpr_sl2 o).
 Proof.
   apply expr_mutind; try (intros; exact I).
   - (* ENum *) intros f HF; unfold expr_sl2; intros st st' HC.
@@ -652,7 +664,26 @@ Proof.
       rewrite (sop_ok_noarg nc gc o 2 (k + 1 + 1) HO HS HE) by lia. f_equal. lia.
     + intros lc HL. apply Forall_app. split; [apply L1; exact HL|]. apply Forall_app. split; [apply L2; rewrite A1; exact HL|].
       constructor; [apply lopk_nonlocal, noarg_nonlocal; exact HO|constructor].
-  - (* ESlice *) intros l _ a _ b _ HF. discriminate HF.
+  - (* ESlice *) intros l IHl a IHa b IHb HF; unfold expr_sl2; intros st st' HC.
+    cbn [efrag] in HF. apply andb_true_iff in HF. destruct HF as [HF HF3]. apply andb_true_iff in HF. destruct HF as [HF1 HF2].
+    cbn [compile_expr] in HC.
+    apply bind_ok in HC; destruct HC as (c3 & HC3 & HC). apply bind_ok in HC3; destruct HC3 as (c2 & HC2 & HCb).
+    apply bind_ok in HC2; destruct HC2 as (c1 & HCl & HCa).
+    destruct (IHl HF1 _ _ HCl) as (A1 & ops1 & newc1 & B1 & C1 & D1 & L1).
+    destruct (IHa HF2 _ _ HCa) as (A2 & ops2 & newc2 & B2 & C2 & D2 & L2).
+    destruct (IHb HF3 _ _ HCb) as (A3 & ops3 & newc3 & B3 & C3 & D3 & L3).
+    pose proof (emit_enc0 Slice _ _ eq_refl HC) as ->. cbn [csym ccode cconsts].
+    split; [congruence|]. exists (ops1 ++ ops2 ++ ops3 ++ [(Slice, 0)]), (newc1 ++ newc2 ++ newc3).
+    split; [rewrite !encode_app, encode_one, B3, B2, B1, <- !app_assoc; reflexivity|].
+    split; [rewrite C3, C2, C1, <- !app_assoc; reflexivity|]. split.
+    + intros nc gc k H1 HG. rewrite C3, C2, !app_length in H1.
+      eapply runs_app; [apply (D1 nc gc k); auto; lia|].
+      eapply runs_app; [apply (D2 nc gc (k + 1)); [rewrite C2, app_length; lia|rewrite A1; exact HG]|].
+      eapply runs_app; [apply (D3 nc gc (k + 1 + 1)); [rewrite C3, C2, !app_length; lia|rewrite A2, A1; exact HG]|]. cbn [runs].
+      rewrite (sop_ok_noarg nc gc Slice 3 (k + 1 + 1 + 1) eq_refl eq_refl eq_refl) by lia. f_equal. lia.
+    + intros lc HL. apply Forall_app. split; [apply L1; exact HL|]. apply Forall_app. split; [apply L2; rewrite A1; exact HL|].
+      apply Forall_app. split; [apply L3; rewrite A2, A1; exact HL|].
+      constructor; [apply lopk_nonlocal; reflexivity|constructor].
   - (* EGroup *) intros e IHe HF; unfold expr_sl2; intros st st' HC.
     simpl in HF, HC. apply (IHe HF _ _ HC).
   - (* EUnsupported *) intros w HF. discriminate HF.
@@ -689,6 +720,13 @@ Proof.
       apply (D2 nc gc (k + 1 + 1)); [rewrite C2, C1, C0, !app_length; cbn [List.length]; lia|rewrite A1, A0; exact HG].
     + intros lc HL. apply Forall_app. split; [constructor; [apply lopk_nonlocal; reflexivity|constructor]|].
       apply Forall_app. split; [apply L1; rewrite A0; exact HL|apply L2; rewrite A1, A0; exact HL].
+  - (* ONoneE *) intros _ st st' HC. cbn [compile_oexpr] in HC.
+    pose proof (emit_enc0 ONone _ _ eq_refl HC) as ->. cbn [csym ccode cconsts].
+    split; [reflexivity|]. exists [(ONone, 0)], []. split; [rewrite encode_one; reflexivity|].
+    split; [rewrite app_nil_r; reflexivity|]. split.
+    + intros nc gc k _ _. cbn [runs]. rewrite (sop_ok_noarg nc gc ONone 0 k eq_refl eq_refl eq_refl) by lia. f_equal. lia.
+    + intros lc _. constructor; [apply lopk_nonlocal; reflexivity|constructor].
+  - (* OSome *) intros e IHe HF st st' HC. cbn [efrag_o] in HF. cbn [compile_oexpr] in HC. exact (IHe HF st st' HC).
 Qed.
 
 Theorem efrag_sl2 : forall e, efrag e = true -> expr_sl2 e.
